@@ -18,13 +18,17 @@ def gen(c, binary):
 
 def run(c):
     c.rule = ("every case: a real JWTHelper (2 configured Ed25519 keys via ParseVkuthKeys, sometimes a wrong-size one, an unconfigured "
-              "third key; injected clock), one token minted from a spec = a valid token changed in 0 (30%), 1 (60%) or 2 (10%) aspects "
-              "out of alg / kind / kid / signature / iss / user / exp / iat / nbf (±5 s boundaries at ms, quarter-second and second "
-              "offsets) / malformed segments, with random bit sets (own prefix, foreign prefix, near-miss prefixes, all ten bit forms, "
-              "junk), parsed by the real parseAccessToken; then 3-5 CanViewMetricName, 1-2 canChangeMetricByName and 3-6 CanEditMetric "
-              "calls on names biased to what the bits mention and MetricMetaValue pairs differing in 0-2 fields. "
-              "non-trivial = the token differs from a valid one in exactly one aspect, or a non-admin edit reached the field checks; "
-              "distinct by op-sequence hash")
+              "third key; injected clock) parses a SEQUENCE of 1-5 tokens in one process. Each token is minted from a spec = a valid "
+              "token changed in 0 (30%), 1 (60%) or 2 (10%) aspects out of alg / kind / kid / signature / iss / user / exp / iat / nbf "
+              "(+-5 s boundaries at ms, quarter-second and second offsets) / malformed segments; claims JSON shapes: bits key present / "
+              "absent / null / [], vkuth_data absent / null, user / iss / exp / iat / nbf absent or null, is_service omitted / false / "
+              "null; bit sets: first token usually privileged, later tokens random / bit-less / a subset of the previous token's bits / "
+              "the previous bits under another application's prefix (own prefix, foreign and near-miss prefixes, all ten bit forms, junk). "
+              "Every token goes through the real parseAccessToken and, if accepted, through CanViewMetricName / canChangeMetricByName / "
+              "CanEditMetric calls (3-5 / 1-2 / 3-6 after the last token, fewer after earlier ones) on names biased to what the bits "
+              "mention and MetricMetaValue pairs differing in 0-2 fields. The model decides each token alone, so a leak between tokens "
+              "is a disagreement. non-trivial = some token differs from a valid one in exactly one aspect, or a non-admin edit reached "
+              "the field checks, or an accepted bit-less token follows a token that carried own-prefix bits; distinct by op-sequence hash")
     c.assumptions += [
         "Ed25519 is not modelled: for every configured key the harness verifies the signature segment itself with crypto/ed25519 "
         "and passes the list of key ids that verify to the model (Token.sigOk)",
@@ -33,6 +37,9 @@ def run(c):
         "golang-jwt's check order and error bits (ParseWithClaims) are modelled and compared through the error mask of every rejection",
         "Weight is float64 in Go; the model uses quarters (exact domain); NaN weights are not generated",
         "local / insecure mode (token ignored by design) is modelled and compared but excluded from the acceptance oracle",
+        "'the grants are a function of (configuration, clock, token) alone' is the FORM of the model (parseAccessToken has no state "
+        "argument); that the code has no memory between tokens (pooled / reused decode targets, caches) is established only by the "
+        "sequence correspondence and the grant-depends-on-previous-token oracle, i.e. on the generated sequences",
     ]
     binary = c.go_build(HARNESS)
     if binary:
@@ -40,9 +47,9 @@ def run(c):
     c.prove("SH.Props.C30", extra_files=["SH/Model/Access.lean", "SH/Gen/C30.lean"])
     drv = c.driver(DRIVER)
     if binary and drv:
-        # thorough: 5 chunks of 40000 cases with seeds derived from VERIF_SEED (keeps the text held in memory small)
+        # thorough: 5 chunks of 30000 cases (sequences of 1-5 tokens) with seeds derived from VERIF_SEED (keeps the text held in memory small)
         for k in range(c.n(1, 5)):
-            rc, out = c.go_run(binary, [f"-n={c.n(12000, 40000)}", f"-seed={c.seed + 7919 * k}"])
+            rc, out = c.go_run(binary, [f"-n={c.n(8000, 30000)}", f"-seed={c.seed + 7919 * k}"])
             c.harness_ok(rc, out, "verif-c30")
             c.correspond(out, drv)
             del out
@@ -71,9 +78,11 @@ META = {
              "(edit_needs_both), never sees or changes remote-config metrics, and an accepted non-admin edit leaves weight (except 0->1), "
              "presort, sharding x5, skips x3 and every tag's raw-ness unchanged (frozen_fields). The model is tied to the code by replaying "
              "every generated token and policy query on the real functions and on the compiled model and diffing verdicts, error masks, "
-             "granted sets and decisions."),
-    "note": ("Partial: Ed25519 and golang-jwt's base64/JSON decoding are trusted (signature validity and the decoded header/claims are "
-             "inputs of the model). Trusted: Lean kernel; the correspondence on generated cases (quick 12000, thorough 5 x 40000). "
+             "granted sets and decisions; tokens are parsed in sequences by one JWTHelper in one process while the model decides each token "
+             "alone, so state leaking from one token into the next is a disagreement (and the oracle grant-depends-on-previous-token)."),
+    "note": ("The theorems speak about one token at a time: statelessness of the real parser is the model's form, tied to the code only by "
+             "the sequence correspondence. Partial: Ed25519 and golang-jwt's base64/JSON decoding are trusted (signature validity and the decoded header/claims are "
+             "inputs of the model). Trusted: Lean kernel; the correspondence on generated cases (quick 8000 sequences of 1-5 tokens, thorough 5 x 30000). "
              "Finding outside the property: a correctly signed token WITHOUT exp makes Claims.Valid panic (nil dereference) instead of "
              "returning an error - the token is not accepted, so the property holds; the model reproduces the panic."),
     "design_ref": "DESIGN.md §6 C30",
